@@ -260,9 +260,24 @@ def selftest(prop):
         log("SELFTEST-FAIL C17: pristine trace not accepted (%s)" % v)
         ok = False
 
+    # TLC's workers emit cases in no fixed order: pick a trace whose expansion has a composite primary key
+    def composite(tr):
+        for ev in tr:
+            if ev["op"] == "expand":
+                x = ev["real"]
+                try:
+                    return len(x["client"]["primaryKey"]) >= 2 and len(x["query"]["methods"][0]["params"]) >= 2
+                except (KeyError, IndexError, TypeError):
+                    return False
+        return False
+    pick = next((i for i, tr in enumerate(traces) if composite(tr)), None)
+    if pick is None:
+        log("SELFTEST-FAIL C17: no recorded expansion with a composite primary key")
+        return 2
+
     def corrupt(fn):
         bad = json.loads(json.dumps(traces))
-        for ev in bad[3]:
+        for ev in bad[pick]:
             if ev["op"] == "expand":
                 fn(ev["real"])
         return bad
